@@ -675,7 +675,12 @@ func (vc *VC) zero(t types.Type) Term {
 		}
 		return vc.name("zero", app(si.sort, si.ctor, args...))
 	case *types.Array:
-		return Term{fmt.Sprintf("((as const %s) %s)", s, vc.zero(u.Elem()).S), s}
+		// the element value is written out in full: cvc5 accepts only values inside constant arrays
+		save := vc.nameLimit
+		vc.nameLimit = 1 << 30
+		el := vc.zero(u.Elem())
+		vc.nameLimit = save
+		return Term{fmt.Sprintf("((as const %s) %s)", s, el.S), s}
 	}
 	panic(engErr("zero: unsupported type %s", t))
 }
